@@ -279,13 +279,17 @@ func runC15(e *Env) {
 	e.R.AddPart(ev.Part{Name: "intervals", Enumerated: "numbers 1..64 (and 65..200) x 7 qualities: existence, size, printed notation, print/parse", Executions: 200 * 7, States: 448, Transitions: 448, Exhaustive: true})
 
 	alpha := []string{"b", "#", "0", "1", "2", "9"}
+	strMax := 6
+	if e.Thorough {
+		strMax = 7
+	}
 	var strs []string
 	var gen func(s string)
 	gen = func(s string) {
 		if s != "" {
 			strs = append(strs, s)
 		}
-		if len(s) == 6 {
+		if len(s) == strMax {
 			return
 		}
 		for _, a := range alpha {
@@ -297,7 +301,7 @@ func runC15(e *Env) {
 		c15Notation(e, strs[i])
 		e.R.Trace(1)
 	})
-	e.R.AddPart(ev.Part{Name: "notation-strings", Enumerated: fmt.Sprintf("all %d strings of length 1..6 over {b,#,0,1,2,9}", len(strs)), Executions: int64(len(strs)), Exhaustive: true})
+	e.R.AddPart(ev.Part{Name: "notation-strings", Enumerated: fmt.Sprintf("all %d strings up to the length bound (6 quick, 7 thorough) over {b,#,0,1,2,9}", len(strs)), Executions: int64(len(strs)), Exhaustive: true})
 
 	d, err := refDict(e.RepoDir, nil, nil)
 	if err != nil {
@@ -318,14 +322,9 @@ func runC15(e *Env) {
 		}
 	}
 	seen := map[string]bool{}
-	nroots := 7
-	if e.Thorough {
-		nroots = 21
-	}
+	nroots := 21
 	for ri, r := range roots {
-		if ri%3 != 0 && !e.Thorough {
-			continue
-		}
+		_ = ri
 		for _, c := range d.Order {
 			for _, sym := range []string{c.Name, c.Meta.Display} {
 				// long names cannot be written in chord text unless they lex as a symbol; both are tried
